@@ -66,6 +66,7 @@ def gen(run_seed: int, tier: str) -> dict:
         offenders.append({"rel": rel, "lang": lang, "base": base, "faults": fs})
     cmds = t.sample(CLI_CMDS, 2 + t.draw(2, "ncmd"), "cmds")
     return {"world": world, "offenders": offenders, "cmds": cmds, "fmt": t.pick(["json", "text", "sarif"], "fmt"),
+            "probe": t.pick(["vanish", "dangling", "symdir"], "probe") if t.chance(1, 8, "probe_run") else None,
             "W": 1 + t.draw(4, "W"), "knobs": {"shape": "random", "exec_at": "dispatch"},
             "sched_seed": mix(run_seed, "sched")}
 
@@ -260,6 +261,9 @@ def _execute(zy, sc: dict, W: World) -> dict:
             failures.append(_fail("cli-exception", rule=cmd, exc=r["value"]["exc"].split(":")[0], lang=lang0, fault=fc0, msg=r["value"]["exc"]))
         failures += _tap_failures(read_tap(str(W.root / f"tap-cli{i}.jsonl")), offs, f"cli:{cmd}")
     Cparts["exits"] = exits
+    # ---- probe only (the statement speaks of file *content*): read-path faults, counted, never a VIOLATION
+    if sc.get("probe") and sc["world"]["files"]:
+        stats["probe"] = _read_probe(zy, W, sc, root)
     seen, uniq = set(), []
     for f in failures:
         if f["sig"] not in seen:
@@ -269,6 +273,24 @@ def _execute(zy, sc: dict, W: World) -> dict:
     stats["all_foreign"] = all_foreign
     H = digest({k: v for k, v in sc.items() if k not in ("hashseed", "index", "verif_seed", "sched_tape")})
     return {"failures": uniq, "stats": stats, "H": H, "C": digest(Cparts), "scenario": sc, "harness": harness}
+
+
+def _read_probe(zy, W: World, sc: dict, root: str) -> dict:
+    kind = sc["probe"]
+    env = _env(W, sc, "tap-probe.jsonl")
+    if kind == "vanish":
+        victim = sorted(sc["world"]["files"])[0].rsplit("/", 1)[-1]
+        env["knobs"] = dict(env["knobs"], vanish=victim)
+        env["walk"] = "tape"
+    elif kind == "dangling":
+        os.symlink("/nonexistent/target.py", W.proj / "dangling_link.py")
+    elif kind == "symdir":
+        os.symlink(str(W.proj), W.proj / "loop_link")
+    r = zy.call("vsim.ops:api_call", {"env": env, "root": root, "method": "lint_directory", "dir": root}, timeout=OP_TIMEOUT, exit="_exit")
+    out = {"kind": kind, "raised": None if r["ok"] else (r.get("exc_type") or r.get("kind")),
+           "fired": (r["value"]["counters"].get("fault.vanished", 0) if r["ok"] and kind == "vanish" else 1),
+           "swallowed_records": len(read_tap(str(W.root / "tap-probe.jsonl")))}
+    return out
 
 
 def shrink(sc: dict):
@@ -320,6 +342,17 @@ def shrink(sc: dict):
                 yield c
 
 
+def _probe_summary(runs):
+    from collections import Counter
+    ps = [r["stats"]["probe"] for r in runs if r["stats"].get("probe")]
+    return {"read_path_faults_injected": len(ps), "fired": sum(1 for p in ps if p["fired"]),
+            "by_kind": dict(Counter(p["kind"] for p in ps)),
+            "api_call_raised": dict(Counter(str(p["raised"]) for p in ps if p["raised"])),
+            "swallowed_records_total": sum(p["swallowed_records"] for p in ps),
+            "note": "file vanishing between directory listing and read, dangling symlink, symlinked directory: outside the statement "
+                    "(it speaks of file content), counted, never a VIOLATION"}
+
+
 def evidence(outputs: list[dict], tier: str, seed: int) -> dict:
     from collections import Counter
     runs = [r for o in outputs for r in o["runs"]]
@@ -343,6 +376,7 @@ def evidence(outputs: list[dict], tier: str, seed: int) -> dict:
         "offender_languages": dict(langs), "cli_commands_run": dict(cmds),
         "line_events_max": max(steps) if steps else 0,
         "line_events_cap": f"{STEP_CAP_BASE} + 10 x baseline line events (inputs without many_funcs), {STEP_CAP_HEAVY} otherwise",
+        "exposure_probes": _probe_summary(runs),
         "simulated_events": sum(steps),
         "simulated_time": "not applicable: no clock in the code under test; bounded termination is measured in line events",
         "real_vs_stub": {"real": "src/ (language detection, read_text, 20 rules, catch-alls, CLI exit path), tree-sitter, ast, "
